@@ -7,6 +7,7 @@ package meshgen
 import (
 	"encoding/json"
 	"fmt"
+	"time"
 
 	"github.com/EliCDavis/polyform/math/trs"
 	"github.com/EliCDavis/polyform/modeling"
@@ -207,7 +208,10 @@ func GenCase(g GenDesc) hx.Case {
 	names := NewNames()
 	var outs []Desc
 	if class == "ok" {
-		p, _ := ProjectWith(m, ProjectOpt{BlankVals: true})
+		p, perr := ProjectWith(m, ProjectOpt{BlankVals: true})
+		if perr != nil {
+			c.GoFail = fmt.Sprintf("generator %s: %v", g.Gen, perr)
+		}
 		// keep the Coq literals small: a mesh above the cap is judged here with the same test
 		// (recorded as a harness-side failure if ill-formed) and rendered without its indices
 		if len(p.Idx) > 6000 || p.NVerts() > 3000 {
@@ -216,12 +220,6 @@ func GenCase(g GenDesc) hx.Case {
 			}
 			p.Idx = []int{}
 		}
-		for _, i := range p.Idx {
-			if i < 0 && c.GoFail == "" {
-				c.GoFail = fmt.Sprintf("generator %s returned the negative index %d", g.Gen, i)
-			}
-		}
-		clampIdx(&p)
 		outs = []Desc{p}
 		names.AddDesc(p)
 		c.Nontriv = len(p.Idx) > 0
@@ -260,15 +258,6 @@ func wfDesc(d Desc) bool {
 	return true
 }
 
-// clampIdx: a nat literal cannot be negative; an out-of-range stand-in keeps the case ill-formed.
-func clampIdx(d *Desc) {
-	for k, i := range d.Idx {
-		if i < 0 || i > 100000 {
-			d.Idx[k] = d.NVerts() + 7
-		}
-	}
-}
-
 func randPath(r *hx.Rng, n int) []float64 {
 	out := make([]float64, 0, 3*n)
 	x, y, z := 0.0, 0.0, 0.0
@@ -293,6 +282,9 @@ func randShape(r *hx.Rng, n int) []float64 {
 // negative ones included, occasionally larger.
 func RandomGen(r *hx.Rng, big bool) GenDesc {
 	g := GenDesc{Gen: hx.Pick(r, GenKinds)}
+	if len(g.Gen) > 8 && g.Gen[:8] == "marching" && !big && r.Chance(1, 2) {
+		g.Gen = hx.Pick(r, GenKinds[:17]) // marching is the costly generator: half as often in a quick run
+	}
 	small := func() int {
 		switch r.Intn(12) {
 		case 0:
@@ -339,7 +331,14 @@ func RandomGen(r *hx.Rng, big bool) GenDesc {
 		g.I = []int{r.Range(-1, 7), r.Intn(5)}
 		g.F = []float64{3}
 	case "marching_sphere", "marching_box", "marching_line":
-		g.I = []int{r.Range(1, 4), r.Intn(3)}
+		mode := 0 // Field.March; 1: canvas, sequential; 2: canvas, parallel (costly on a loaded machine: 1 in 6)
+		switch r.Intn(6) {
+		case 0, 1:
+			mode = 1
+		case 2:
+			mode = 2
+		}
+		g.I = []int{hx.Pick(r, []int{1, 1, 2, 2, 2, 3}), mode}
 		g.F = []float64{hx.Pick(r, []float64{0.4, 0.7, 1, 1.3}), hx.Pick(r, []float64{0, 0.3, 1}), hx.Pick(r, []float64{0, 0, 0.1, -0.1, 5})}
 	case "bowyer_watson":
 		n := r.Range(0, 12)
@@ -382,8 +381,12 @@ func Generators(run *hx.Run, r *hx.Rng, n int, thorough bool) {
 	if thorough || nsmall > len(small) {
 		nsmall = len(small)
 	}
+	ms := map[string]int64{}
+	run.Extra["generator_ms"] = ms
 	add := func(g GenDesc) {
+		t0 := time.Now()
 		c := GenCase(g)
+		ms[g.Gen] += time.Since(t0).Milliseconds()
 		run.Count("gen:" + g.Gen)
 		cls := "accepted"
 		if c.Coq == "CGen Declared" {
